@@ -5,7 +5,7 @@
    The literal rules are modelled for the arities the IRnode constructor admits (iszero/ceil32/assert 1, if 2 or 3).
    Err Raised = StaticAssertionException; Err AssertFail = IRnode constructor assertion (ceil32 fold out of range). *)
 From Coq Require Import ZArith Bool List String.
-From Verif Require Import Base.Word256 Base.PyInt C15.Syntax C15.GenUtils C15.Optimizer.
+From Verif Require Import Base.Word256 Base.PyInt Base.Hex C15.Syntax C15.GenUtils C15.Optimizer.
 Import ListNotations.
 Open Scope Z_scope.
 
@@ -150,6 +150,28 @@ Fixpoint mapi_res {A B} (f : nat -> A -> res B) (i : nat) (l : list A) : res (li
 Definition head_is (e : expr) (names : list string) : bool :=
   match e with Node op _ => existsb (String.eqb op) names | _ => false end.
 
+(* IRnode.unique_symbols: the set of (unique_symbol name) markers below a node; CompilerPanic (Err KeyErr) if one
+   name occurs under two different children.  `deploy` only counts its first and third argument. *)
+Definition sym_name (e : expr) : string :=
+  match e with Var x => x | Node x _ => x | Lit v => Verif.Base.Hex.hexZ v end.
+Fixpoint usyms (e : expr) : res (list string) :=
+  match e with
+  | Node op args =>
+      let own := if String.eqb op "unique_symbol" then match args with a :: _ => [sym_name a] | [] => [] end else [] in
+      let skip1 := String.eqb op "deploy" && Nat.eqb (List.length args) 3 in
+      (fix go (l : list expr) (i : nat) (acc : list string) : res (list string) :=
+         match l with
+         | [] => Ok acc
+         | c :: t =>
+             if skip1 && Nat.eqb i 1 then go t (S i) acc else
+             s <- usyms c ;;
+             if existsb (fun x => existsb (String.eqb x) acc) s then Err KeyErr else go t (S i) (acc ++ s)%list
+         end) args 0%nat own
+  | _ => Ok []
+  end.
+Definition same_set (a b : list string) : bool :=
+  forallb (fun x => existsb (String.eqb x) b) a && forallb (fun x => existsb (String.eqb x) a) b.
+
 (* finalize of _optimize: unchanged -> the original node; else rebuild and optimise again *)
 Definition fin_ (rec : expr -> res (bool * expr)) (e : expr) (args_changed changed : bool) (new : expr)
     : res (bool * expr) :=
@@ -225,13 +247,18 @@ Fixpoint opt (fuel : nat) (cancun : bool) (pc : pctx) (e : expr) : res (bool * e
     match e with
     | Lit _ | Var _ => Ok (false, e)
     | Node op args =>
+      starting <- usyms e ;;        (* starting_symbols = node.unique_symbols *)
       rs <- mapi_res (fun i a => opt f cancun (pc_of op i) a) 0 args ;;
       let args_changed := existsb fst rs in
       let argz := map snd rs in
       let fin := fin_ (opt f cancun pc) e args_changed in
+      (* should_check_symbols: after a binop rewrite the rebuilt node must carry the same symbols *)
+      let chk := match kind_of op with KBin o => match arith o with Some _ => true | None => false end | _ => false end in
       match top_rule cancun pc op argz with
       | AGeneric => fin false (Node op argz)
-      | ARe c new => fin c new
+      | ARe c new =>
+          if chk then (now <- usyms new ;; if same_set starting now then fin c new else Err KeyErr)
+          else fin c new
       | ASingle x => r <- opt f cancun pc x ;; Ok (true, snd r)
       | AFail er => Err er
       end
@@ -241,6 +268,8 @@ Fixpoint opt (fuel : nat) (cancun : bool) (pc : pctx) (e : expr) : res (bool * e
 Definition optimize (cancun : bool) (e : expr) : res expr :=
   r <- opt 64 cancun PNone e ;; Ok (snd r).
 
+Definition show_syms (r : res (list string)) : string :=
+  match r with Ok l => String.concat "," l | Err _ => "PANIC" end.
 Definition show_opt (r : res expr) : string :=
   match r with
   | Ok e => show e
@@ -248,5 +277,6 @@ Definition show_opt (r : res expr) : string :=
   | Err AssertFail => "ASSERT"
   | Err OutOfFuel => "FUEL"
   | Err TypeErr => "DECLINED"
+  | Err KeyErr => "PANIC"
   | Err _ => "E"
   end.
